@@ -213,7 +213,16 @@ impl Acc {
             *self.counters.entry(k.clone()).or_insert(0) += v;
         }
         if let Some(reason) = &report.discarded {
-            *self.discarded.entry(reason.clone()).or_insert(0) += 1;
+            let n = self.discarded.entry(reason.clone()).or_insert(0);
+            *n += 1;
+            if *n == 1 && std::env::var("VERIF_KEEP_OOS").is_ok() {
+                self.found.push(Found {
+                    key: format!("OOS:discarded:{}", reason),
+                    detail: "discarded".into(),
+                    scenario: scenario.clone(),
+                    index,
+                });
+            }
             return;
         }
         if report.nontrivial {
